@@ -106,6 +106,7 @@ type Sim struct {
 	Counters  map[string]int
 	States    map[uint64]struct{}
 	Released  map[string]int // label -> number of releases at that label
+	LastFault int            // step at which an injected fault last fired
 
 	// fault configuration read by the fs wrappers and the fsnotify pump
 	Faults map[string]int // kind -> rate in 1/1000 per eligible point
@@ -198,6 +199,7 @@ func Chance(kind string) bool {
 	}
 	if s.choose(1000) < r {
 		s.Counters["fault:"+kind]++
+		s.LastFault = s.step
 		return true
 	}
 	return false
@@ -653,4 +655,16 @@ func (s *Sim) ParkedLabels() string {
 	}
 	sort.Strings(l)
 	return strings.Join(l, ",")
+}
+
+// Logf appends a line to the schedule log of a verbose replay; it draws
+// nothing and is a no-op otherwise.
+func Logf(format string, a ...any) {
+	s := cur.Load()
+	if s == nil || !s.KeepLog {
+		return
+	}
+	s.mu.Lock()
+	s.Log = append(s.Log, fmt.Sprintf("   %d: ", s.step)+fmt.Sprintf(format, a...))
+	s.mu.Unlock()
 }
